@@ -11,8 +11,8 @@ use rten_testing::TestCases;
 
 use super::{
     BiasVector, BlockQuantizedMatrix, ColOffsets, F32KernelType, GemmError, GemmExecutor, GemmInT,
-    GemmInputA, GemmInputB, GemmOptions, GemmOutT, Im2Col, QuantParams, ReducedRangeRng,
-    RowOffsets, WithKernel,
+    GemmInputA, GemmInputB, GemmOptions, GemmOutT, GemmUninitOptions, Im2Col, QuantParams,
+    ReducedRangeRng, RowOffsets, WithKernel,
 };
 
 /// Scale a possibly non-float value by a float.
@@ -836,6 +836,50 @@ fn test_gemm_prepack_empty() {
         )
         .unwrap();
         assert_eq!(result, NdTensor::full([m, n], 1.));
+    })
+}
+
+#[test]
+fn test_batched_gemm_empty_output() {
+    #[derive(Clone, Debug)]
+    struct Case {
+        m: usize,
+        n: usize,
+        k: usize,
+    }
+    let cases = [
+        Case { m: 0, n: 15, k: 5 },
+        Case { m: 10, n: 0, k: 5 },
+        Case { m: 0, n: 0, k: 0 },
+    ];
+
+    cases.test_each_clone(|case| {
+        let Case { m, n, k } = case;
+
+        let mut rng = XorShiftRng::new(1234);
+        let a = NdTensor::<f32, 2>::rand([m, k], &mut rng);
+        let b = NdTensor::<f32, 2>::rand([k, n], &mut rng);
+        let gemm = GemmExecutor::new();
+
+        for batch in [1, 2, 3] {
+            let a_mats = vec![GemmInputA::Unpacked(a.view()); batch];
+            let b_mats = vec![GemmInputB::Unpacked(b.view()); batch];
+            let result = gemm
+                .batched_gemm_uninit(&mut [], &a_mats, &b_mats, GemmUninitOptions::default())
+                .unwrap();
+            assert!(result.is_empty());
+        }
+
+        // Inputs are still validated if the output is empty.
+        let bad_b = NdTensor::<f32, 2>::rand([k + 1, n], &mut rng);
+        let a_mats = [GemmInputA::Unpacked(a.view()); 2];
+        let b_mats = [
+            GemmInputB::Unpacked(b.view()),
+            GemmInputB::Unpacked(bad_b.view()),
+        ];
+        let result =
+            gemm.batched_gemm_uninit(&mut [], &a_mats, &b_mats, GemmUninitOptions::default());
+        assert_eq!(result.err(), Some(GemmError::KSizeMismatch));
     })
 }
 
